@@ -23,6 +23,11 @@ if _os.environ.get("VERIF_P_OVERLAY"):
 WORLDS = {
     "P": {"pkg": "engine", "harness": "engine", "test": "TestVerifWorldP", "cpu": 1, "real": _REAL, "stub": _STUB,
           "harness_files": ["s_*.go", "p_*.go"],
+          # lock-level yield points (tools/yieldins, instrumented copies of the CURRENT tree): the apply path of a
+          # store node (readCommitFromRaft -> dealCommitData -> WriteRows) gets scheduling points between the entries
+          # of one commit batch (p_yield.go); lib/raftlog/snapshotter.go marks the batch boundary
+          "yield_files": ["engine/partition_raft.go", "engine/engine_replication.go", "engine/engine.go", "engine/shard.go",
+                          "engine/ts_storage.go", "engine/mutable/table.go", "lib/raftlog/snapshotter.go"],
           "extra_overlay": _EXTRA},
 }
 
@@ -41,6 +46,12 @@ PROPS = {
                 "elect, read), leader_ack_kill (the leader / master is killed at the earliest legal instant after it answered the client), vote_kill (the leader is isolated until a vote "
                 "request is queued, heal, the third node's links are slow, the voter is killed right after its granted vote arrived and restarted, vote messages first), "
                 "send_kill_storm (the general mix with few deliveries at a time, clock steps without deliveries, slow links, kills of the isolated node, earliest-instant kills). "
+                "Scheduling points inside the apply path (knob apply_yield, drawn last; lock-level yield points inserted by tools/yieldins into copies of the engine files of the tree under test): "
+                "the goroutine that applies a node's commit batches (readCommitFromRaft) can be parked between two entries of ONE batch, before EngineImpl.getShard / shard.WriteRows take their first lock, "
+                "and stays parked while other steps run - flush or kill of that very node above all - until an aresume step, a seeded number of steps, the kill of its node or the closing phase. "
+                "8 % of the cases are flush_mid_batch: a follower is cut off (or paused) while >= 3 writes commit, gets them back as one commit batch, its apply loop is parked after the first entry, "
+                "the node is flushed there, the loop runs to the end of the batch (or not), the node is killed (complete journal / earliest legal instant / part of the tail lost) and restarted, then another "
+                "node is killed and the master is read; 15 % of the general-mix and send_kill_storm cases have apply_yield on, with run-until-parked / flush / kill / resume steps inserted behind heal and restart steps. "
                 "Further steps: the meta service's TransferLeadership towards the master partition. At most one node is down, paused or "
                 "isolated at a time (an isolated node may itself be killed). After every delivered message the committed prefixes of all live nodes are compared; after every acknowledgement "
                 "and at read steps the master partition's shard is compared with the last-write-wins model; at the end faults stop, a probe write must commit "
@@ -52,9 +63,11 @@ PROPS = {
                    "proposal forwarded to the leader", "shard group created by a write", "a write without acknowledgement took effect",
                    "kill between send and persist (earliest cut)", "leader killed before re-replication",
                    "node killed right after its append acknowledgement was delivered (earliest cut)", "node killed right after its granted vote was delivered (earliest cut)",
-                   "node killed right after it answered the client (earliest cut)"],
+                   "node killed right after it answered the client (earliest cut)",
+                   "flush landed inside a commit batch", "kill after a mid-batch flush", "kill with the apply loop inside a commit batch"],
         "assumptions": ["crash model = process kill at a local instant t: every file-system mutation before t survives, everything after t is lost - later mutations and later sends alike; t may lie in the past only as far as nothing the node did after t has been observed (a message delivered counts with the journal length at its send instant, so does an answered client and a committed entry the harness learned from that disk); messages sent after t are still queued and vanish with the process",
                         "hand-over of a raft message to the simulated network happens when the node's sender goroutine calls the transport; with yield the node's goroutines are rescheduled before every file-system mutation (one of the legal schedules of the same code); a slow link (hold, <= 3 s) delays messages in order and is not counted as a fault",
+                        "a goroutine of the apply path that stands before a Lock/RLock statement may stay there for any time while the node's other goroutines run (one of the legal schedules of the same code); it holds no lock of the engine at the two points used",
                         "one virtual clock for all nodes (no skew); timing is judged only after faults stop (B = 60 s for a probe write, B' = 60 s for replica convergence)",
                         "a write the client got no acknowledgement for (error, timeout, connection lost, still in flight) may take effect at any later time or never (per cell), nothing else is relaxed",
                         "journal cuts do not split a group of raft.meta writes unless the case has split_meta (that is lib/raftlog's subject, C17); the order of file operations of concurrent goroutines inside one flush is a race in the code and not controlled",
